@@ -154,6 +154,10 @@ func (s *ScanMethod) ProcessPacketData(data []byte, _ *gopacket.CaptureInfo) (er
 	if !validPacket(s.rcvDecoded) {
 		return
 	}
+	// the IPv4 decoder does not look at the version field
+	if s.rcvIP.Version != 4 {
+		return
+	}
 
 	if s.pktFilter(&s.rcvTCP) {
 		s.results.Put(&ScanResult{
